@@ -412,7 +412,7 @@ def build_trace(sc: dict, gens: list, ref: Reference):
             rec["e"], rec["killed"] = "crash", bool(g["killed"] or g.get("unclean"))
             evs.append(rec)
     # does the scenario use its second directory only as the new directory of restores that switch checkpointing off?
-    allops = [o for g in sc["gens"] for o in g["ops"]]
+    allops = [o for g in sc.get("gens", []) for o in g["ops"]]
     newdir_ops = [o for o in allops if o.get("new_dir")]
     bunused = bool(newdir_ops) and all(o.get("freq") == 0 for o in newdir_ops) and not any(o["op"] == "copy" for o in allops) \
         and not sc.get("default_dir")
